@@ -53,6 +53,7 @@ SummaryEv ==
                       /\ PairsOf(Ev.minRuns) = e.minRuns
                       /\ Ev.printed = e.printed
                       /\ Ev.wmax = e.wmax
+                      /\ Ev.D = MaxDiff(Ev.adj) /\ Ev.Dfun = Ev.D /\ MaxDiffIsSpread(Ev.adj)   \* first line: D of the adjustment data
     /\ ref' = ref /\ l' = l + 1
 Next == Lane \/ SummaryEv
 Spec == Init /\ [][Next]_vars
